@@ -504,8 +504,22 @@ def rule_batch_dispatch(ctx: Ctx) -> RuleResult:
     return rr
 
 
+def rule_doread_result(ctx: Ctx) -> RuleResult:
+    """Twisted calls IReadDescriptor.doRead() and treats a true result as 'connection lost' (the reader is removed).
+    The descriptor that wraps a urwid watch callback must therefore not return the callback's result: the watch has to
+    stay until remove_watch_file()."""
+    p = ctx.p
+    rr = RuleResult("WRAP", "C13.12", "_TwistedInputDescriptor.doRead does not hand the user callback's result to the reactor", floor=1)
+    fi = p.func(EL + "twisted_loop._TwistedInputDescriptor.doRead")
+    rr.inst("doRead", True, {"returns": [norm(r, 40) for r in fi.own_nodes() if isinstance(r, ast.Return)]})
+    for r in [n for n in fi.own_nodes() if isinstance(n, ast.Return) and n.value is not None]:
+        if any(isinstance(c, ast.Call) for c in ast.walk(r.value)):
+            rr.add(finding("WRAP", fi, r, f"`{norm(r, 40)}` returns the watch callback's result to the Twisted reactor, which takes any true value for 'connection lost' and removes the reader: a callback returning True is called once and never again although the watch was not removed", construct="doRead returns the callback's result"))
+    return rr
+
+
 def run(ctx: Ctx):
-    return [rule_wrap(ctx), rule_snap(ctx), rule_idle_arming(ctx), rule_remove_returns(ctx), rule_select_zmq(ctx), rule_trio_checkpoint(ctx), rule_presence(ctx), rule_handle_unique(ctx), rule_twisted_idle_flag(ctx), rule_idle_removed(ctx), rule_batch_dispatch(ctx)]
+    return [rule_wrap(ctx), rule_snap(ctx), rule_idle_arming(ctx), rule_remove_returns(ctx), rule_select_zmq(ctx), rule_trio_checkpoint(ctx), rule_presence(ctx), rule_handle_unique(ctx), rule_twisted_idle_flag(ctx), rule_idle_removed(ctx), rule_batch_dispatch(ctx), rule_doread_result(ctx)]
 
 
 from ..mutants import Mut  # noqa: E402
@@ -513,6 +527,7 @@ from ..mutants import Mut  # noqa: E402
 _S = "urwid/event_loop/select_loop.py"
 _A = "urwid/event_loop/asyncio_loop.py"
 MUTANTS = [
+    Mut("twisted-doread-returns-result", "urwid/event_loop/twisted_loop.py", "_TwistedInputDescriptor.doRead", "        self.cb()\n", "        return self.cb()\n", "WRAP|event_loop.twisted_loop._TwistedInputDescriptor.doRead"),
     Mut("select-run-suppresses-eintr", "urwid/event_loop/select_loop.py", "SelectEventLoop.run", "            while True:\n                self._loop()", "            while True:\n                with contextlib.suppress(InterruptedError):\n                    self._loop()", "WRAP|event_loop.select_loop.SelectEventLoop.run"),
     Mut("select-batch-calls-removed-watch", "urwid/event_loop/select_loop.py", "SelectEventLoop._loop", "            if self._watch_files.get(record.fd) is record.data:\n                record.data()\n                self._did_something = True", "            record.data()\n            self._did_something = True", "SNAP|event_loop.select_loop.SelectEventLoop._loop"),
     Mut("select-idle-pass-calls-removed", "urwid/event_loop/select_loop.py", "SelectEventLoop._entering_idle", "        for handle, callback in list(self._idle_callbacks.items()):\n            # a callback removed by an earlier one in this pass is not called\n            if handle in self._idle_callbacks:\n                callback()", "        for callback in list(self._idle_callbacks.values()):\n            callback()", "SNAP|event_loop.select_loop.SelectEventLoop._entering_idle"),
